@@ -876,8 +876,29 @@ func (x *Exec) placeholder(t types.Type, hint string) Value {
 // having to be re-derived through the quantifiers in its body.
 func (x *Exec) applyPredicate(sub *Env, sf *SpecFunc, actuals []Value, ptypes []types.Type) Value {
 	x.predApps++
+	if sf.Lazy {
+		x.lazyApps++
+	}
 	def, ok := x.preds[sf.Name]
+	if !ok && x.predDefining[sf.Name] {
+		// recursive application met while the function's own signature is being
+		// computed: it reads the same heap leaves as the enclosing body, so a
+		// placeholder of the declared result type is enough here
+		if sf.Result == nil {
+			x.fail("recursive opaquefunc %s needs a declared result type", sf.Name)
+		}
+		rt := x.P.resolveType(sub.pkg, sf.Result)
+		if isBool(rt) {
+			return Scalar{T: "true", Typ: rt}
+		}
+		return Scalar{T: x.em.fresh("rec_" + sf.Name), Typ: rt}
+	}
 	if !ok {
+		if x.predDefining == nil {
+			x.predDefining = map[string]bool{}
+		}
+		x.predDefining[sf.Name] = true
+		defer delete(x.predDefining, sf.Name)
 		ph := &State{Reach: "true", Heap: map[string]string{}, Epoch: -1 - len(x.preds), Frontier: "F0"}
 		penv := *sub
 		penv.st = ph
